@@ -13,7 +13,7 @@ def main(fin, fout):
   est = job["est"]
   outs = _run_probes(est, job["probes"])
   with open(fout, "wb") as f:
-    pickle.dump(dict(est=est, outs=outs), f, protocol=4)
+    pickle.dump(dict(est=est, outs=list(outs), vals=outs.values), f, protocol=4)
 
 
 if __name__ == "__main__":
